@@ -32,7 +32,7 @@ def svGrow : Rel DB where
 
 theorem primsOK_svGrow (P : Params) (h : Nat) : PrimsOK P h svGrow where
   addBal _ _ _ := Step.guarded (fun _ _ hx => hx)
-  subBal a t v := subBal_step_of P a t v (Step.guarded (fun _ _ hx => hx)) (Step.guarded (fun _ _ hx => hx))
+  subBal a t v _ := subBal_step_of P a t v (Step.guarded (fun _ _ hx => hx)) (Step.guarded (fun _ _ hx => hx))
   insertRate _ _ := Step.guarded (fun _ _ hx => hx)
   insertHistBatch _ := Step.guarded (fun _ _ hx => hx)
   insertHistTx _ := Step.guarded (fun _ _ hx => hx)
